@@ -24,7 +24,7 @@ def main():
         return thorough.run(pid, seed)
     rc, _ = runner.run_property(pid, a.tier, props.rules_for(pid), seed=seed, record_floors=a.record_floors,
                                 replay_key=replay_key)
-    if pid in ("C06", "C10", "C20") and not a.replay:
+    if pid in ("C03", "C06", "C10", "C20") and not a.replay:
         # the taint/bounds analysis is the most delicate engine: its positive/negative twins
         # (engine/fixtures) are re-checked on every run; a mismatch means the check is broken
         try:
